@@ -154,7 +154,7 @@ def check(prog, rep):
     for conn in (8, 4):
         t1, t2 = tables[0].get(conn), tables[1].get(conn)
         rep.add('R1', f, entry, '%d-connectivity: pass 2 uses the tables of pass 1' % conn, f.node.lineno,
-                t1 is not None and t1 == t2, 'both passes must read the same neighbour set')
+                None if t1 is None and t2 is None else (t1 is not None and t1 == t2), 'both passes must read the same neighbour set')
     c.labelwin = {t.get('labelwin') for t in tables}
     c.valuewin = {t.get('valuewin') for t in tables}
     check_pass1(c)
@@ -238,7 +238,7 @@ def window_tables(c, pi):
         lab = [(w, v) for (cn, w, a), v in wins.items() if cn == conn and a == c.out.name]
         line = Ly.node.lineno
         if len(src) != 1 or len(lab) != 1:
-            rep.add('R1', f, entry, 'pass %d, %d-connectivity windows' % (pi + 1, conn), line, False,
+            rep.add('R1', f, entry, 'pass %d, %d-connectivity windows' % (pi + 1, conn), line, None if not src and not lab else False,
                     'expected one value window (from %s) and one label window (from %s), found %d and %d' % (
                         c.data, c.out.name, len(src), len(lab)))
             continue
@@ -516,7 +516,7 @@ def check_search(c, L, name):
             atoms |= walk_atoms(v)
     labels = [a for a in atoms if isinstance(a, App) and a.name == 'cell?' and a.args[0] in c.labelwin]
     if len(labels) != 1:
-        rep.add('R2', f, entry, 'search loop reads the label window', line, None if labels else False,
+        rep.add('R2', f, entry, 'search loop reads the label window', line, None if labels or not any(c.labelwin) else False,
                 'the search must look at the labels of the matching neighbours (found %d label reads)' % len(labels))
         return
     A = labels[0]
